@@ -17,6 +17,9 @@ def main():
     py, xs, lits = seeds.all_seeds()
     o = ("c04",)
     pycommon.b_full(chk, o, 2 if chk.quick else 3, python_only=False, vac=("ok",))
+    xg = seeds.grammar_programs("xonsh", 3 if chk.quick else 8, chk.seed)
+    chk.extra["xonsh_grammar_programs"] = len(xg)
+    pycommon.k0_texts(chk, o, xg, "xonsh.gram derivations k=0", wall=150 if chk.quick else 900)
     ep = seeds.expr_product()
     pycommon.k0_texts(chk, o, ep + xs, "expression kinds x positions + xonsh forms k=0", wall=150 if chk.quick else 900)
     if chk.quick:
